@@ -28,6 +28,7 @@ inductive Op where
   | setnested (k k2 : String) (v : V)
   | rejectUnless (k : String)          -- return null unless the key is present
   | rejectIf (k : String) (v : V)      -- return null when bs[k] === v (scalar)
+  | markdeep (k k2 : String) (v : V)   -- write k2 := v into every object reachable inside bs[k], in place
   | loop                               -- spin until the deadline
   | emitBad                            -- emit a value that cannot be serialised
 
@@ -49,6 +50,22 @@ def scalarEq (a b : V) : Bool :=
   | some x, some y => x == y
   | _, _ => false
 
+/-! `markV k2 v x`: `x` with `k2 := v` written into every object reachable inside it (through
+arrays and objects alike), children first.  In ECMAScript this is an in-place update of nested
+values of the bindings the script was handed — harmless exactly when those are a deep copy. -/
+mutual
+def markV (k2 : String) (v : V) : V → V
+  | .arr xs => .arr (markVs k2 v xs)
+  | .obj kvs => .obj (insertB k2 v (markKvs k2 v kvs))
+  | x => x
+def markVs (k2 : String) (v : V) : List V → List V
+  | [] => []
+  | x :: xs => markV k2 v x :: markVs k2 v xs
+def markKvs (k2 : String) (v : V) : List (String × V) → List (String × V)
+  | [] => []
+  | (k, x) :: rest => (k, markV k2 v x) :: markKvs k2 v rest
+end
+
 def Op.apply (o : Op) (bs : Bs) (em : List V) : Except Exit (Bs × List V) :=
   match o with
   | .set k v => .ok (insertB k v bs, em)
@@ -65,6 +82,10 @@ def Op.apply (o : Op) (bs : Bs) (em : List V) : Except Exit (Bs × List V) :=
     match lookup k bs with
     | some (.obj m) => .ok (insertB k (.obj (insertB k2 v m)) bs, em)
     | _ => .ok (insertB k (.obj [(k2, v)]) bs, em)
+  | .markdeep k k2 v =>
+    match lookup k bs with
+    | some x => .ok (insertB k (markV k2 v x) bs, em)
+    | none => .ok (bs, em)
   | .rejectUnless k => if (lookup k bs).isSome then .ok (bs, em) else .error .reject
   | .rejectIf k v =>
     match lookup k bs with
